@@ -62,6 +62,14 @@ RGetChunk(isValidFile, want, ret, eq) ==
     /\ isValidFile => (ret = want /\ eq)
     /\ UNCHANGED rvars
 
+\* the same request while the kernel delivers the input in short pieces (every read(2) returns at most a few bytes, as a
+\* pipe, a network file system or a signal makes it): the request may fail or come back short, but what it returns is
+\* the beginning of the right bytes and a full-size answer is the right one - never other bytes with success
+RGetChunkCapped(want, ret, prefixOk) ==
+    /\ phase = "open"
+    /\ ret > 0 => (prefixOk /\ ret <= want)
+    /\ UNCHANGED rvars
+
 \* C09: the validity scan classifies exactly.  vec = per-chunk marks after the call
 \* (1 valid, -1 failed, 0 untouched), ret = 1 all good / -1 some bad / 0 error
 Expected(i) == IF f.cok[i] THEN 1 ELSE 0 - 1
